@@ -25,6 +25,7 @@ type FuncResult struct {
 	GenMs   int64
 	Inputs  []string // scalar input leaf names (for get-value)
 	exceptTerms map[string]string
+	Aliases [][3]string // name, sort, term: model-readable names for fields of pointer inputs
 	InputDesc map[string]string
 }
 
@@ -161,6 +162,30 @@ func verifyFunc(w *World, key string) *FuncResult {
 		}
 		g.frameObligations(fc, exit, params, pkgPath)
 	}()
+	// aliases for scalar fields of struct-pointer inputs in the entry heap (so that models show them)
+	if g.entry != nil {
+		for _, p := range fn.Params {
+			pt, ok := types.Unalias(p.Type()).Underlying().(*types.Pointer)
+			if !ok {
+				continue
+			}
+			if _, isStruct := types.Unalias(pt.Elem()).Underlying().(*types.Struct); !isStruct {
+				continue
+			}
+			for _, l := range w.shapes.shape(pt.Elem()) {
+				if l.Sort != sInt && l.Sort != sBool {
+					continue
+				}
+				key := g.fieldCompKey(pt.Elem(), l.Path)
+				name := "C." + sanitize(key) + "!0"
+				if !g.declared[fmt.Sprintf("(declare-const %s %s)", name, arrSort(sInt, l.Sort))] {
+					continue
+				}
+				alias := "in_" + sanitize(p.Name()+l.Path)
+				res.Aliases = append(res.Aliases, [3]string{alias, l.Sort, smtSel(name, "in_" + sanitize(p.Name()))})
+			}
+		}
+	}
 	res.exceptTerms = g.exceptTerms
 	res.Obls = g.obls
 	res.Errs = append(res.Errs, g.errs...)
